@@ -558,6 +558,19 @@ func (i *Interpreter) ExecuteRoute(route *Route, request *Request) (*Response, e
 		}
 	}
 
+	// An undeclared parameter given several times comes back as a []string;
+	// hand it to the program as an ordinary array, which the operators,
+	// loops and builtins understand.
+	for name, val := range queryParams {
+		if strs, ok := val.([]string); ok {
+			arr := make([]interface{}, len(strs))
+			for k, s := range strs {
+				arr[k] = s
+			}
+			queryParams[name] = arr
+		}
+	}
+
 	// Bind query params as 'query' object
 	routeEnv.Define("query", queryParams)
 
